@@ -106,7 +106,7 @@ class RefTM:
         return (st, tape, hd)
 
 
-def sym_tm(nwork, gamma_in, blank, q0):
+def sym_tm(nwork, gamma_in, blank, q0, tstep=1):
     from gambatools.tm import TM
     work = ['s%d' % i for i in range(nwork)]
     states = work + ['qa', 'qr']
@@ -114,10 +114,14 @@ def sym_tm(nwork, gamma_in, blank, q0):
     delta = L.GDict()
     entries = {}
     targets = [(q, b, dr) for q in states for b in gamma for dr in 'LR']
+    if tstep > 1:
+        # a sub-family: every tstep-th target, rotated per entry so that all targets occur somewhere
+        pass
     for p in work:
         for a in gamma:
             pres = E.fresh('e_%s_%s' % (p, a))
-            val = c.choice(targets, 't_%s_%s' % (p, a))
+            tg = targets if tstep == 1 else [t for i, t in enumerate(targets) if (i + len(entries)) % tstep == 0]
+            val = c.choice(tg, 't_%s_%s' % (p, a))
             delta.m[(p, a)] = [pres, val]
             entries[(p, a)] = {t: E.dag.and_(pres, g) for t, g in c.alt_map(val).items()}
     T = TM(L.GSet(states), L.GSet(list(gamma_in)), L.GSet(gamma), delta, q0, 'qa', 'qr', blank)
